@@ -12,6 +12,10 @@ import util
 from util import TensorProduct
 
 
+# dictionary keys whose insertion order differs from their sorted order
+KEYS = ["magnetisation", "energy", "correlation", "op10", "op2"]
+
+
 def state_fingerprint(state):
     """content + identity fingerprint of a caller-owned state object."""
     if isinstance(state, np.ndarray):
@@ -70,9 +74,13 @@ class C18(Prop):
         nrep = ctx.scale(1, 4) * budget_scale
         for rep in range(nrep):
             for kind in kinds:
-                cases.append({"kind": "class", "cls": kind, "tree": rng.choice([[None, 0], [None, 0, 0], [None, 0, 1], [None, 0, 0, 1]]),
-                              "nsteps": rng.choice([2, 3, 4]), "k": rng.choice([1, 2, "inf"]), "cont": rng.choice(containers),
-                              "seed": rng.randrange(10 ** 6), "deep": rng.random() < 0.5})
+                # every class with a non-canonical caller state, with a caller state canonical at the
+                # first node of the TDVP sweep (the gauge an earlier TDVP run leaves behind) and at a
+                # random node / the root
+                for gauge in ["none", "start", rng.choice(["random", "root"])]:
+                    cases.append({"kind": "class", "cls": kind, "tree": rng.choice([[None, 0], [None, 0, 0], [None, 0, 1], [None, 0, 0, 1]]),
+                                  "nsteps": rng.choice([2, 3, 4]), "k": rng.choice([1, 2, "inf"]), "cont": rng.choice(containers),
+                                  "seed": rng.randrange(10 ** 6), "deep": rng.random() < 0.5, "gauge": gauge})
         return cases
 
     def nontrivial(self, case):
@@ -105,7 +113,7 @@ class C18(Prop):
         elif case["cont"] == "list":
             ops = list(range(nops))
         else:
-            ops = {f"key{j}": j for j in range(nops)}
+            ops = {KEYS[j]: j for j in range(nops)}
         ev = Counting(0, case["dt"], case["T"], ops)
         n = ev.num_time_steps
         k = case["k"]
@@ -153,11 +161,18 @@ class C18(Prop):
             terms = [(Fraction(1), "1", TensorProduct({ids[0]: f"A0_{dims[ids[0]]}"}))]
         ham = util.Hamiltonian(terms, ham.conversion_dictionary, ham.coeffs_mapping)
         H = util.dense_ham(ham, ids, dims)
+        # gauge of the caller's state: not canonical, canonical at the first node of the TDVP sweep
+        # (the gauge an earlier TDVP run leaves behind), at a random node, or at the root
+        gauge = case.get("gauge", "none")
+        if gauge != "none":
+            from pytreenet.time_evolution.time_evo_util.update_path import TDVPUpdatePathFinder
+            centre = {"start": TDVPUpdatePathFinder(ttns).find_path()[0], "random": rng.choice(ids), "root": ttns.root_id}[gauge]
+            ttns.canonical_form(centre, mode=rng.choice([util.ptn.SplitMode.REDUCED, util.ptn.SplitMode.KEEP]))
         nprs = np.random.RandomState(case["seed"])
         opm = {}
         for j in range(2):
             a = nprs.standard_normal((2, 2)) + 1j * nprs.standard_normal((2, 2))
-            opm[f"op{j}"] = (ids[j % n], a)
+            opm[["zz_first", "aa_second"][j]] = (ids[j % n], a)
         ob = {"nsteps": nsteps, "k": k}
         if case["cls"] == "exact":
             from pytreenet.time_evolution.exact_time_evolution import ExactTimeEvolution
@@ -310,8 +325,8 @@ class C18(Prop):
                 return f"times {ob['times']} expected {[s * case['dt'] for s in steps]}"
             if case["cont"] == "dict":
                 for j in range(case["nops"]):
-                    if ob["bykey_im"][f"key{j}"] != [float(j)] * len(steps) or ob["bykey"][f"key{j}"] != [float(s) for s in steps]:
-                        return f"key key{j} does not address its operator's results"
+                    if ob["bykey_im"][KEYS[j]] != [float(j)] * len(steps) or ob["bykey"][KEYS[j]] != [float(s) for s in steps]:
+                        return f"key {KEYS[j]} does not address its operator's results"
             if ob["final_state"] != n:
                 return f"{ob['final_state']} steps performed, expected {n}"
             if ob["initial_state"] != 0 or ob["state_after_reset"] != 0:
